@@ -148,11 +148,13 @@ extern "C" void h_c08_verify(unsigned long klen, unsigned long dlen, unsigned lo
     std::vector<std::uint8_t> key(klen), data(dlen), mac(maclen);
     if (klen) nondet_bytes(key.data(), klen, "key");
     if (dlen) nondet_bytes(data.data(), dlen, "data");
-    if (maclen) nondet_bytes(mac.data(), maclen, "mac");
-    const bool ok = HmacSha256::verify(key, data, mac);
     std::uint8_t want[32]; spec::hmac(key.data(), klen, data.data(), dlen, want);
+    // candidate tag = correct tag XOR an arbitrary difference (so that a counterexample replays natively, where the tag is the real
+    // HMAC and not the solver's interpretation of the abstracted compression function); bytes beyond 32 are arbitrary
+    if (maclen) nondet_bytes(mac.data(), maclen, "delta");
     unsigned diff = 0;
-    if (maclen == 32) for (std::size_t i = 0; i < 32; ++i) diff |= static_cast<unsigned>(mac[i] ^ want[i]);
+    for (std::size_t i = 0; i < maclen && i < 32; ++i) { diff |= mac[i]; mac[i] = static_cast<std::uint8_t>(mac[i] ^ want[i]); }
+    const bool ok = HmacSha256::verify(key, data, mac);
     const bool same = maclen == 32 && diff == 0;
     verif_assert(ok == same, "C08: verification accepts exactly the correct 32-byte tag");
     if (ok) verif_reach("accepted"); else verif_reach("rejected");
